@@ -4,6 +4,14 @@ package engine
 // This also means max line length
 const MaxSearchDepth = 40
 
+// Upper bound for the number of plies quiescence search can go beyond the nominal depth: every capture
+// or promotion lowers 2*pawns + otherPieces of the two sides, which is at most 2*(pawnCap+pieceCap).
+const maxQuiescenceDepth = 2 * (pawnCap + pieceCap)
+
+// Number of rows of the best-line table: a node at depth d keeps its subline in row d+1, and the deepest
+// node is a quiescence node at depth MaxSearchDepth+maxQuiescenceDepth.
+const maxLineLength = MaxSearchDepth + maxQuiescenceDepth + 2
+
 // Used in calculation of time dedicated to the next move in time-controlled games
 const ExpectedFullMovesToBePlayed = 30
 
